@@ -28,6 +28,9 @@ var scripted = []scenario{
 	{"late_channel_many_packets", scLateChannel},
 	{"stop_and_remove", scStopAndRemove},
 	{"handshake", scHandshake},
+	{"mixed_consumers", scMixedConsumers},
+	{"key_rotation", scKeyRotation},
+	{"lifecycle_corners", scLifecycleCorners},
 }
 
 func init() {
@@ -80,6 +83,11 @@ func init() {
 		cfg.ConsUnbonding = 3 * 3600
 		cfg.CCVTimeout = 3 * 3600
 		cfg.BlocksPerEpoch = int64(1 + (seed/int64(len(scripted)))%3)
+		if sc.name == "mixed_consumers" {
+			cfg.NumVals = 5
+			cfg.Tokens = []int64{5000000, 4000000, 3000000, 2000000, 1000000}
+			cfg.MaxProvVals = []int64{5, 3, 4}[(seed/int64(len(scripted)))%3]
+		}
 		w := NewWorld(t, cfg)
 		w.rec.Start()
 		w.rec.emit("p", "Scenario", map[string]any{"name": sc.name, "variant": int(seed) / len(scripted)}, nil, nil)
@@ -161,6 +169,10 @@ func scSharedConnection(t *testing.T, w *World, variant int) {
 		if _, err := w.OpenChannel(c0, w.defaultChanCfg(c0)); err != nil {
 			t.Logf("channel: %v", err)
 		}
+	}
+	if variant >= 2 {
+		// the first consumer is stopped (and keeps its bindings for an unbonding period) before the second one appears
+		w.Block("p", 5, nil, map[string]any{"a": "RemoveConsumer", "sender": "o1", "c": c0})
 	}
 	// a second consumer with the same chain id on the existing connection
 	w.Block("p", 5, nil, map[string]any{"a": "CreateConsumer", "sender": "o2", "chain": "shared-1",
@@ -593,7 +605,13 @@ func scRewards(t *testing.T, w *World, variant int) {
 	d0 := w.VoucherDenom(c0, "stake")
 	d1 := w.VoucherDenom(c1, "stake")
 	w.GovExec(map[string]any{"a": "ChangeRewardDenoms", "add": []string{d0}})
-	w.Block("p", 5, nil, map[string]any{"a": "UpdateConsumer", "sender": "o1", "c": c1, "denoms": []string{d1}})
+	if variant%4 == 3 {
+		// the EARLIER consumer allow-lists the later consumer's denom; the later consumer itself does not:
+		// its credit in that denom must never be paid out
+		w.Block("p", 5, nil, map[string]any{"a": "UpdateConsumer", "sender": "o1", "c": c0, "denoms": []string{d1}})
+	} else {
+		w.Block("p", 5, nil, map[string]any{"a": "UpdateConsumer", "sender": "o1", "c": c1, "denoms": []string{d1}})
+	}
 	w.Block("p", 5, nil, map[string]any{"a": "SetCommission", "v": "v2", "c": c0, "rate": "0.500000000000000000"})
 	// both consumers need their first validator-set packet before they accept ordinary transactions
 	w.Block("p", 5, nil, map[string]any{"a": "Delegate", "v": "v2", "amt": 1000000})
@@ -608,8 +626,10 @@ func scRewards(t *testing.T, w *World, variant int) {
 	for round := 0; round < 6; round++ {
 		for ci, c := range []string{c0, c1} {
 			var txs []map[string]any
-			txs = append(txs, map[string]any{"a": "Fees", "denom": "stake", "amt": amts[(round*2+ci+variant)%len(amts)]})
-			if (round+variant)%2 == 0 {
+			if !(variant%2 == 1 && round%3 == 1) { // some rounds collect fees in the second denom only
+				txs = append(txs, map[string]any{"a": "Fees", "denom": "stake", "amt": amts[(round*2+ci+variant)%len(amts)]})
+			}
+			if (round+variant)%2 == 0 || (variant%2 == 1 && round%3 == 1) {
 				txs = append(txs, map[string]any{"a": "Fees", "denom": "photon", "amt": amts[(round+ci)%len(amts)]})
 			}
 			txs = append(txs, map[string]any{"a": "RelayTo", "n": 3})
@@ -634,6 +654,145 @@ func scRewards(t *testing.T, w *World, variant int) {
 		w.Block("p", 5, nil, map[string]any{"a": "Delegate", "v": "v1", "amt": 1000000})
 		w.Block(c0, 5, nil, map[string]any{"a": "AckTo", "n": 3, "port": "transfer"})
 		w.Block(c1, 5, nil, map[string]any{"a": "AckTo", "n": 3, "port": "transfer"})
+	}
+	w.Block("p", 5, nil)
+}
+
+// ---------------------------------------------------------------------------------------
+// targeted scenarios: situations that need a specific combination to arise
+
+// several consumers of different kinds are recomputed in the same epoch block (the provider fetches the bonded and
+// active validators once and reuses them for every consumer)
+func scMixedConsumers(t *testing.T, w *World, variant int) {
+	// c0: Top-N (governance-owned) where a validator below the threshold has NOT opted in and a smaller one has
+	w.Block("p", 5, nil, map[string]any{"a": "CreateConsumer", "sender": "o1", "chain": "mixa-1", "init": map[string]any{"initRev": 1, "spawn": w.now() + 60}})
+	w.Block("p", 5, nil, map[string]any{"a": "UpdateConsumer", "sender": "o1", "c": "c0", "newOwner": "gov"})
+	topN := []int{50, 51, 60, 67}[variant%4]
+	sh := map[string]any{"topN": topN}
+	if variant%2 == 1 {
+		sh["allowInactive"] = true
+	}
+	w.GovExec(map[string]any{"a": "UpdateConsumer", "c": "c0", "shaping": sh})
+	// c1: plain opt-in, everybody opts in; c2: opt-in with a cap and a priority list
+	w.Block("p", 5, nil, map[string]any{"a": "CreateConsumer", "sender": "o1", "chain": "mixb-1", "init": map[string]any{"initRev": 1, "spawn": w.now() + 50}},
+		map[string]any{"a": "CreateConsumer", "sender": "o2", "chain": "mixc-1", "init": map[string]any{"initRev": 1, "spawn": w.now() + 50},
+			"shaping": map[string]any{"valCap": 2 + variant%2, "prioL": []string{"v4"}, "powCap": []int{0, 34, 50}[variant%3]}})
+	n := w.Cfg.NumVals
+	var txs []map[string]any
+	for i := 1; i <= n; i++ {
+		v := fmt.Sprintf("v%d", i)
+		txs = append(txs, map[string]any{"a": "OptIn", "v": v, "c": "c1"})
+	}
+	w.Block("p", 5, nil, txs...)
+	txs = nil
+	for i := 1; i <= n; i++ {
+		txs = append(txs, map[string]any{"a": "OptIn", "v": fmt.Sprintf("v%d", i), "c": "c2"})
+	}
+	w.Block("p", 5, nil, txs...)
+	// on the Top-N consumer only the smallest validators opt in voluntarily
+	w.Block("p", 5, nil, map[string]any{"a": "OptIn", "v": fmt.Sprintf("v%d", n), "c": "c0"}, map[string]any{"a": "OptIn", "v": fmt.Sprintf("v%d", n-1), "c": "c0", "key": "k1"})
+	for i := 0; i < 8; i++ {
+		w.Block("p", 10, nil)
+	}
+	// power changes over a few epochs, including moves that keep the total constant
+	w.Block("p", 5, nil, map[string]any{"a": "Redelegate", "v": "v1", "v2": "v2", "amt": 1000000})
+	for i := 0; i < 3; i++ {
+		w.Block("p", 5, nil)
+	}
+	w.Block("p", 5, nil, map[string]any{"a": "Delegate", "v": fmt.Sprintf("v%d", n-2), "amt": 1000000})
+	for i := 0; i < 3; i++ {
+		w.Block("p", 5, nil)
+	}
+	w.Block("p", 5, nil, map[string]any{"a": "OptOut", "v": fmt.Sprintf("v%d", n), "c": "c0"}, map[string]any{"a": "OptOut", "v": "v1", "c": "c0"})
+	for i := 0; i < 3; i++ {
+		w.Block("p", 5, nil)
+	}
+}
+
+// key rotation on a launched consumer (K1 -> K2 -> K1 -> K3), keys on not-yet-launched consumers, validator creation
+// with keys that are known somewhere, time advancing over the pruning deadlines
+func scKeyRotation(t *testing.T, w *World, variant int) {
+	c0 := w.quickConsumer("keys-1", 1, []string{"v1", "v2", "v3"}, nil)
+	w.Block("p", 5, nil, map[string]any{"a": "CreateConsumer", "sender": "o2", "chain": "keysreg-1"})
+	c1 := fmt.Sprintf("c%d", w.nextConsumerID()-1) // registered only
+	w.Block("p", 5, nil, map[string]any{"a": "CreateConsumer", "sender": "o2", "chain": "keysinit-1", "init": map[string]any{"initRev": 1, "spawn": w.now() + 100000}})
+	c2 := fmt.Sprintf("c%d", w.nextConsumerID()-1) // initialized, far in the future
+	w.Block("p", 5, nil, map[string]any{"a": "AssignKey", "v": "v1", "c": c0, "key": "k1"})
+	w.Block("p", 600, nil, map[string]any{"a": "AssignKey", "v": "v1", "c": c0, "key": "k2"})
+	w.Block("p", 600, nil, map[string]any{"a": "AssignKey", "v": "v1", "c": c0, "key": "k1"}) // a key still queued for pruning
+	w.Block("p", 600, nil, map[string]any{"a": "AssignKey", "v": "v1", "c": c0, "key": "k3"})
+	w.Block("p", 5, nil, map[string]any{"a": "AssignKey", "v": "v2", "c": c0, "key": "k1"}) // somebody else's old key
+	w.Block("p", 5, nil, map[string]any{"a": "AssignKey", "v": "v1", "c": c0, "key": "pk1"}) // back to the provider key
+	w.Block("p", 5, nil, map[string]any{"a": "AssignKey", "v": "v2", "c": c0, "key": "pk3"}) // another validator's provider key
+	// keys on consumers that have no client yet
+	w.Block("p", 5, nil, map[string]any{"a": "AssignKey", "v": "v2", "c": c1, "key": "k4"}, map[string]any{"a": "OptIn", "v": "v3", "c": c2, "key": "k5"})
+	w.Block("p", 5, nil, map[string]any{"a": "AssignKey", "v": "v2", "c": c1, "key": "k6"}) // replaced before launch: k4 is free again
+	// new provider validators: with a key known on a registered / initialized / launched consumer, a freed key, a fresh key
+	nv := w.Cfg.NumVals
+	for i, key := range []string{"k6", "k5", "k3", "k4", fmt.Sprintf("pk%d", nv+5)} {
+		if (variant>>uint(i))&1 == 1 && i < 3 {
+			continue
+		}
+		w.Block("p", 5, nil, map[string]any{"a": "CreateValidator", "v": fmt.Sprintf("v%d", nv+1+i), "key": key, "amt": 1500000})
+	}
+	// time passes over the pruning deadlines in steps around them
+	for i := 0; i < 12; i++ {
+		w.Block("p", []int64{1800, 1795, 5, 5}[i%4], nil)
+		if i%3 == 0 {
+			w.Block("p", 5, nil, map[string]any{"a": "AssignKey", "v": "v3", "c": c0, "key": []string{"k1", "k2", "k7", "k8"}[(i/3)%4]})
+		}
+	}
+}
+
+// lifecycle corner cases: spawn times in the past / now with a second message in the same block, ownership and Top-N
+// moves by governance, infraction-parameter requests that cancel or collide, two consumers sharing schedule times
+func scLifecycleCorners(t *testing.T, w *World, variant int) {
+	now := w.now()
+	spawn := []int64{now - 3, now + 5, now + 10}[variant%3] // past (relative to the block it is created in), the block's own time, soon
+	if spawn < 1 {
+		spawn = 1
+	}
+	// create and update in the SAME block
+	w.Block("p", 5, nil,
+		map[string]any{"a": "CreateConsumer", "sender": "o1", "chain": "lc-1", "init": map[string]any{"initRev": 1, "spawn": spawn}},
+		map[string]any{"a": "OptIn", "v": "v1", "c": "c0"},
+		map[string]any{"a": "UpdateConsumer", "sender": "o1", "c": "c0", "meta": true})
+	w.Block("p", 5, nil, map[string]any{"a": "CreateConsumer", "sender": "o1", "chain": "ld-1", "init": map[string]any{"initRev": 1, "spawn": spawn}},
+		map[string]any{"a": "OptIn", "v": "v2", "c": "c1"},
+		map[string]any{"a": "UpdateConsumer", "sender": "o1", "c": "c1", "init": map[string]any{"initRev": 1, "spawn": w.now() + 600}})
+	for i := 0; i < 4; i++ {
+		w.Block("p", 5, nil)
+	}
+	// two more consumers, launched, for the shared schedules
+	c2 := w.quickConsumer("le-1", 1, []string{"v1", "v2"}, nil)
+	c3 := w.quickConsumer("lf-1", 1, []string{"v2", "v3"}, nil)
+	infA := map[string]any{"dt": map[string]any{"frac": "0.010000000000000000", "jail": 1200, "tomb": false}}
+	infB := map[string]any{"ds": map[string]any{"frac": "0.100000000000000000", "jail": 86400, "tomb": true}}
+	cur := map[string]any{"dt": map[string]any{"frac": "0.000000000000000000", "jail": 600, "tomb": false}}
+	// both request a change in the same block (same due time); then one of them requests again / cancels
+	w.Block("p", 5, nil, map[string]any{"a": "UpdateConsumer", "sender": "o1", "c": c2, "infr": infA}, map[string]any{"a": "UpdateConsumer", "sender": "o1", "c": c3, "infr": infB})
+	switch variant % 3 {
+	case 0:
+		w.Block("p", 5, nil, map[string]any{"a": "UpdateConsumer", "sender": "o1", "c": c2, "infr": cur}) // equals the values in force: cancels
+	case 1:
+		w.Block("p", 5, nil, map[string]any{"a": "UpdateConsumer", "sender": "o1", "c": c2, "infr": infB}) // replaces
+	default:
+		w.Block("p", 5, nil, map[string]any{"a": "RemoveConsumer", "sender": "o1", "c": c2})
+	}
+	// governance: take a consumer, make it Top-N, try to hand it back with and without resetting Top-N
+	w.Block("p", 5, nil, map[string]any{"a": "UpdateConsumer", "sender": "o1", "c": c3, "newOwner": "gov"})
+	w.GovExec(map[string]any{"a": "UpdateConsumer", "c": c3, "shaping": map[string]any{"topN": 60}})
+	w.GovExec(map[string]any{"a": "UpdateConsumer", "c": c3, "newOwner": "o2"})
+	w.GovExec(map[string]any{"a": "UpdateConsumer", "c": c3, "newOwner": "o2", "shaping": map[string]any{"topN": 55}})
+	if variant%2 == 0 {
+		w.GovExec(map[string]any{"a": "UpdateConsumer", "c": c3, "newOwner": "o2", "shaping": map[string]any{"topN": 0}})
+		w.Block("p", 5, nil, map[string]any{"a": "UpdateConsumer", "sender": "o2", "c": c3, "shaping": map[string]any{"topN": 70}})
+	}
+	// a user message that transfers to governance and sets Top-N at once
+	w.Block("p", 5, nil, map[string]any{"a": "UpdateConsumer", "sender": "o1", "c": "c1", "newOwner": "gov", "shaping": map[string]any{"topN": 80}})
+	// run past the due times
+	for i := 0; i < 10; i++ {
+		w.Block("p", 1800, nil)
 	}
 	w.Block("p", 5, nil)
 }
